@@ -161,6 +161,15 @@ def clause_rollback_arm(prog, rep):
         rep.check(gated, "rollback-arm", "%s/gated-by-comparator" % entry,
                   "rollback_to_epoch is reachable only on the true side of is_better_candidate",
                   "rollback_to_epoch is reachable without is_better_candidate having answered true", c.loc())
+        # (a2) the comparator is consulted before the WrongEpoch arm can return at all (own-commit shortcuts must not pre-empt it)
+        for w, arm in A.variant_arms(prog, f, "Error", "ProcessMessageWrongEpoch"):
+            cb = frozenset(x.bb for x in cmp_calls)
+            r = A.reach_without_edges(f, arm, set(), cb)
+            early = any(f.term(b)["k"] == "return" for b in r)
+            rep.check(bool(cb) and not early, "rollback-arm", "%s/comparator-first" % entry,
+                      "every path through the WrongEpoch arm consults is_better_candidate before returning",
+                      "the WrongEpoch arm can return without consulting is_better_candidate: a member whose own (or already applied) commit "
+                      "is recorded answers early and never adopts / re-applies the MIP-03 winner", c.loc())
         # (b) same epoch value drives comparator, rollback and invalidation
         def epoch_src(call, idx_from_end):
             a = call.args[idx_from_end]
@@ -222,6 +231,36 @@ def clause_rollback_arm(prog, rep):
                   "no MdkCallback::on_rollback notification on the rollback path", c.loc())
 
 
+def clause_snapshot_args(prog, rep):
+    """C01.5: the incumbent recorded with a snapshot is the commit being applied: (epoch before merge, wrapper id, wrapper created_at)"""
+    core = K.core_scope(prog)
+    sites = [c for c in A.sink_sites(prog, lambda c: c.name == "create_snapshot" and last_seg(c.self_adt) == "EpochSnapshotManager", core)]
+    rep.floor("snapshot-records-incumbent", "EpochSnapshotManager::create_snapshot call sites", len(sites), 2)
+    for c in sites:
+        f = c.fn
+        ents = sorted(set(e.label() for e in prog.nontest_fns(("mdk_core",)) if K.api_boundary(e) and last_seg(e.self_adt) == "MDK" and f.path in prog.reachable([e])))
+        inst = "%s/%s" % ("+".join(ents), "staged" if any(K.is_mls_call(x, "merge_staged_commit") for x in f.live_calls()) else "pending")
+        # signature: (&self, storage, group_id, current_epoch, commit_id, commit_ts)
+        if len(c.args) < 6:
+            rep.violation("snapshot-records-incumbent", inst, "create_snapshot signature changed", c.loc())
+            continue
+        ep, cid, cts = c.args[3], c.args[4], c.args[5]
+        og_e = A.origins(prog, f, ep["p"][0], scope=None, max_frames=0) if "p" in ep else None
+        og_i = A.origins(prog, f, cid["p"][0], scope=None, max_frames=0) if "p" in cid else None
+        og_t = A.origins(prog, f, cts["p"][0], scope=None, max_frames=0) if "p" in cts else None
+        fl_i = set(e[1:] for e in cid.get("p", [])[1:] if isinstance(e, str) and e.startswith(".")) | (og_i.fields if og_i else set())
+        ok_e = bool(og_e) and og_e.has_call(lambda x: x.name == "epoch" and last_seg(x.self_adt) == "MlsGroup")
+        ok_i = "id" in fl_i and bool(og_i) and not og_i.has_call(lambda x: x.name in ("now", "generate", "all_zeros"))
+        ok_t = bool(og_t) and "created_at" in og_t.fields and not og_t.has_call(lambda x: x.name == "now")
+        rep.check(ok_e, "snapshot-records-incumbent", inst + "/epoch", "snapshot epoch = MlsGroup::epoch() before the merge",
+                  "the snapshot is filed under something other than the group's epoch before the merge", c.loc())
+        rep.check(ok_i, "snapshot-records-incumbent", inst + "/commit-id", "incumbent id = the wrapper event's id",
+                  "the incumbent commit id recorded with the snapshot is not the wrapper event's id", c.loc())
+        rep.check(ok_t, "snapshot-records-incumbent", inst + "/commit-ts", "incumbent timestamp = the wrapper event's created_at",
+                  "the incumbent timestamp recorded with the snapshot is not the wrapper event's created_at (e.g. the local clock): the MIP-03 "
+                  "comparison against late competitors is then made with the wrong incumbent", c.loc())
+
+
 def clause_future_epoch(prog, rep):
     """C01.4: a WrongEpoch commit from a *future* epoch must not be filed as terminally Failed."""
     scope = K.core_scope(prog)
@@ -273,9 +312,11 @@ def run(ctx, rep):
     rep.clause("C01.1 a checked storage snapshot success-dominates every MlsGroup merge (interprocedural, per calling context)")
     rep.clause("C01.2 MIP-03 decision table of is_better_candidate over the 3x3 orderings of (timestamp, event id)")
     rep.clause("C01.3 rollback arm: gated by comparator, target epoch = message epoch, followed on every path by invalidation, retry marking, notification and re-processing")
+    rep.clause("C01.5 the snapshot records the commit being applied as incumbent: epoch before merge, wrapper id, wrapper created_at")
     rep.clause("C01.4 terminal failure on the WrongEpoch arm must depend on the message epoch (commits ahead of their predecessor)")
     rep.not_decided = "convergence of real delivery schedules, MLS-state equality across members, fork-depth behaviour, OpenMLS internals"
     clause_snapshot_before_merge(prog, rep)
     clause_comparator(prog, rep)
     clause_rollback_arm(prog, rep)
+    clause_snapshot_args(prog, rep)
     clause_future_epoch(prog, rep)
